@@ -149,5 +149,35 @@ Fixpoint successes pf js flds (cur : config) (st : fstate) (h : list (sop * bool
       if code =? 0 then ob :: successes pf js flds cur st' r else successes pf js flds cur st r
   end.
 
+(* what can go wrong between a request and the disk: nothing, the write fails (any system call of
+   writeSettings after the JSON encoding), or the READ of the settings file fails (EACCES, EPERM, EIO
+   on open/read: "could not read settings", code 3).  A save checks its name and URL before it reads,
+   so codes 1 and 2 win over a read fault.  Only a file that does not exist reads as "no configs". *)
+Inductive fault := NoFault | WriteFault | ReadFault.
+
+Definition run_sop_f pf js flds (cur : config) (st : fstate) (o : sop) (f : fault) : Z * fstate :=
+  match f with
+  | NoFault => run_sop_io pf js flds cur st o true
+  | WriteFault => run_sop_io pf js flds cur st o false
+  | ReadFault =>
+      let code := fst (run_sop pf js flds cur st o) in
+      if (code =? 1) || (code =? 2) then (code, st) else (3, st)
+  end.
+
+Definition run_hist_f pf js flds (cur : config) (st : fstate) (h : list (sop * fault)) : fstate :=
+  fold_left (fun s ob => snd (run_sop_f pf js flds cur s (fst ob) (snd ob))) h st.
+
+Fixpoint successes_f pf js flds (cur : config) (st : fstate) (h : list (sop * fault)) : list (sop * fault) :=
+  match h with
+  | [] => []
+  | ob :: r =>
+      let '(code, st') := run_sop_f pf js flds cur st (fst ob) (snd ob) in
+      if code =? 0 then ob :: successes_f pf js flds cur st' r else successes_f pf js flds cur st r
+  end.
+
+(* configMenu ignores a read error: only Default is listed *)
+Definition config_menu_f flds (cur : config) (st : fstate) (u : values) (f : fault) :=
+  match f with ReadFault => config_menu flds cur FCorrupt u | _ => config_menu flds cur st u end.
+
 Definition run_sops pf js flds (cur : config) (st : fstate) (os : list sop) : fstate :=
   fold_left (fun s o => snd (run_sop pf js flds cur s o)) os st.
